@@ -31,6 +31,7 @@ type Case struct {
 	Chunk    int    `json:"chunk"`    // max bytes per Read
 	CloseErr bool   `json:"close_err"`
 	Kind     string `json:"kind"`
+	NilCtx   bool   `json:"nil_ctx,omitempty"` // the helper generated under context_type: "-" passes a nil context
 }
 
 type target struct {
@@ -138,7 +139,11 @@ func Observe(c *Case, post bool) (o *Obs) {
 	}
 	var data target
 	resp := &graphql.Response{Data: &data}
-	err := cl.MakeRequest(context.Background(), &graphql.Request{Query: "query Q { f n }", OpName: "Q"}, resp)
+	ctx := context.Background()
+	if c.NilCtx {
+		ctx = nil //nolint:staticcheck // what generated code without a context type passes
+	}
+	err := cl.MakeRequest(ctx, &graphql.Request{Query: "query Q { f n }", OpName: "Q"}, resp)
 	o.Data = data
 	o.Ext = resp.Extensions
 	var he *graphql.HTTPError
@@ -394,6 +399,7 @@ func GenCase(r *core.Rng, id int) *Case {
 	}
 	c.Chunk = r.Pick2([]int{0, 0, 1, 2, 7, 64})
 	c.CloseErr = r.Chance(0.1)
+	c.NilCtx = id%5 == 2
 	return c
 }
 
@@ -512,7 +518,7 @@ func preSend(k int, post bool) (class, what string) {
 
 func Run(tier string, seed int64, outDir string, replay string) (*core.Result, error) {
 	res := core.NewResult("C12", tier, seed)
-	res.Rule = "fixed corpus (every fault position k over one envelope for status 200 and 500; every status code 100-599) + random (status, body, fault plan): bodies from a grammar (valid {data,errors,extensions} combinations incl. wrong shapes, null, case-variant keys, unknown keys; wrong top-level values; trailing data; leading space; truncations; non-JSON; empty), Do failure, Body.Read failing after k bytes for random k with chunked reads, Close failing; each run through the real POST and GET clients against an instrumented body; plus requests that cannot be built (variables that do not marshal: failing MarshalJSON at top level and nested, channel, func, +Inf) through both clients: an error, no panic, server not contacted; non-trivial = all; distinct by (do_err,status,body,fault,chunk)"
+	res.Rule = "fixed corpus (every fault position k over one envelope for status 200 and 500; every status code 100-599) + random (status, body, fault plan): bodies from a grammar (valid {data,errors,extensions} combinations incl. wrong shapes, null, case-variant keys, unknown keys; wrong top-level values; trailing data; leading space; truncations; non-JSON; empty), Do failure, Body.Read failing after k bytes for random k with chunked reads, Close failing; each run through the real POST and GET clients against an instrumented body, every fifth with the nil context that a helper generated without a context type passes; plus requests that cannot be built (variables that do not marshal: failing MarshalJSON at top level and nested, channel, func, +Inf) through both clients: an error, no panic, server not contacted; non-trivial = all; distinct by (do_err,status,body,fault,chunk)"
 	if replay != "" {
 		data, err := os.ReadFile(replay)
 		if err != nil {
